@@ -9,7 +9,7 @@ use crate::wire;
 use crate::world::{CloseKind, Cond, DynFn, Opts, Outcome, Scenario, Step};
 use std::sync::Arc;
 
-pub const CONFIGS: &[&str] = &["cleartext", "trust", "authquery", "authquery-absent", "authquery-late", "authquery-changed", "authquery-two", "bob-removed", "pool-removed"];
+pub const CONFIGS: &[&str] = &["cleartext", "trust", "authquery", "authquery-absent", "authquery-late", "authquery-changed", "authquery-two", "bob-removed", "pool-removed", "authquery-moved"];
 pub const STARTUPS: &[(&str, &str, &str)] = &[
     ("alice@db", "alice", "db"),
     ("bob@db", "bob", "db"),
@@ -23,7 +23,7 @@ pub const STARTUPS: &[(&str, &str, &str)] = &[
 ];
 pub const VARIANTS: &[&str] = &[
     "correct", "wrong", "other-user", "replayed-salt", "minus-nul", "plus-byte", "empty", "len-minus1", "len0", "len3", "len4", "len-huge", "query-instead", "terminate-instead", "parse-instead",
-    "startup-again", "garbage", "nothing",
+    "startup-again", "garbage", "nothing", "old-password",
 ];
 
 fn real_password(cfgname: &str, user: &str) -> Option<&'static str> {
@@ -34,7 +34,7 @@ fn real_password(cfgname: &str, user: &str) -> Option<&'static str> {
         ("bob-removed", "alice") | ("pool-removed", "alice") => Some("alicepw"),
         ("trust", "alice") => Some("alicepw"),
         ("authquery", "alice") | ("authquery-late", "alice") => Some("alicepw"),
-        ("authquery-changed", "alice") => Some("newpw"),
+        ("authquery-changed", "alice") | ("authquery-moved", "alice") => Some("newpw"),
         ("authquery-two", "alice") => Some("alicepw"),
         ("authquery-two", "bob") => Some("bobpw"),
         _ => None,
@@ -51,6 +51,8 @@ fn variant_bytes(variant: &str, user: &str, pw: &str) -> DynFn {
         match variant.as_str() {
             "correct" => wire::password_message(&good),
             "wrong" => wire::password_message(&wire::md5_password_body(&user, "not-the-password", &salt)),
+            // the password that was right before the server-side change / the move to another server
+            "old-password" => wire::password_message(&wire::md5_password_body(&user, "alicepw", &salt)),
             "other-user" => {
                 // the valid answer of a *different* configured user
                 if user == "bob" {
@@ -154,7 +156,7 @@ pub fn scenario_peer(cfgname: &str, startup: (&str, &str, &str), variant: &str, 
     let mut servers = cfg.servers();
     let md5 = |pw: &str, u: &str| format!("md5{}", wire::md5_hex(format!("{}{}", pw, u).as_bytes()));
     match cfgname {
-        "authquery" | "authquery-late" | "authquery-changed" => {
+        "authquery" | "authquery-late" | "authquery-changed" | "authquery-moved" => {
             servers[0].shadow.insert("alice".into(), md5("alicepw", "alice"));
         }
         "authquery-two" => {
@@ -172,6 +174,17 @@ pub fn scenario_peer(cfgname: &str, startup: (&str, &str, &str), variant: &str, 
         let a = addr.clone();
         env_steps.push(Step::Call("server comes up".into(), Arc::new(move |n| n.servers.get_mut(&a).unwrap().accept = Accept::Up)));
     }
+    if cfgname == "authquery-moved" {
+        // the pool is moved to another server, which is down while the RELOAD runs and comes up afterwards
+        // with another password for alice: what the old server vouched for is worth nothing any more
+        let mut moved = cfg.clone();
+        moved.pools[0].shards[0].servers[0].0 = "pg-new".into();
+        alt = Some(moved.toml());
+        let mut sp = crate::mockpg::ServerSpec::new("pg-new:5432", "pg-new");
+        sp.accept = Accept::Refuse;
+        sp.shadow.insert("alice".into(), md5("newpw", "alice"));
+        servers.push(sp);
+    }
     if cfgname == "authquery-changed" {
         let a = addr.clone();
         let h = md5("newpw", "alice");
@@ -182,6 +195,9 @@ pub fn scenario_peer(cfgname: &str, startup: (&str, &str, &str), variant: &str, 
     if alt.is_some() {
         env_steps.push(Step::WriteConfig(0));
         env_steps.push(Step::Admin("RELOAD".into()));
+    }
+    if cfgname == "authquery-moved" {
+        env_steps.push(Step::Call("pg-new comes up".into(), Arc::new(|n| n.servers.get_mut("pg-new:5432").unwrap().accept = Accept::Up)));
     }
     if admin_only {
         env_steps.push(Step::Shutdown);
@@ -246,6 +262,14 @@ fn must_admit(cfgname: &str, user: &str, db: &str, variant: &str, admin_only: bo
     }
     if cfgname == "authquery-absent" {
         return Some(false);
+    }
+    if variant == "old-password" {
+        // after a password change on the same server the pooler may still hold the hash it fetched before
+        // (it re-fetches when an answer does not match): the property does not say how fresh the secret is
+        if cfgname == "authquery-changed" {
+            return None;
+        }
+        return Some(real_password(cfgname, user) == Some("alicepw"));
     }
     Some(variant == "correct")
 }
@@ -374,7 +398,7 @@ pub fn build(tier: &str) -> SimCheck {
                     if !thorough {
                         // quick: full variant list for the interesting startups, a reduced list elsewhere
                         let key = st.0 == "alice@db" || st.0 == "admin@pgcat" || (*cfgname == "authquery-two" && st.0 == "bob@db");
-                        if !key && !["correct", "wrong", "query-instead", "nothing"].contains(variant) {
+                        if !key && !["correct", "wrong", "query-instead", "nothing", "old-password"].contains(variant) {
                             continue;
                         }
                         if admin_only && !["correct", "wrong", "query-instead"].contains(variant) {
@@ -404,7 +428,7 @@ pub fn build(tier: &str) -> SimCheck {
         oracle: Box::new(oracle),
         bound: 2,
         limits: Limits { max_wall_s: if thorough { 1500.0 } else { 50.0 }, ..Default::default() },
-        rule: "scenario = auth configuration (cleartext, trust, auth_query with hash present / absent / server down at pool creation / changed later / two users each with a hash of its own; a user / a whole pool taken out of the file by a RELOAD before the attempt) x startup (db,user) pair (configured, other user, unknown user/db, admin db in two spellings, non-admin user on the admin db, user only) x message sent in place of PasswordMessage (18 kinds incl. replayed salt, truncated, oversized, wrong type) followed at once by a tagged query x shutting down or not; verdict compared with the reference admission predicate; the same with a legitimate client logging in and running a statement concurrently (all interleavings with <= 2 deviations: neither connection may change the other's verdict); plus 96 connections opened up to the MD5 challenge: no salt issued twice".into(),
+        rule: "scenario = auth configuration (cleartext, trust, auth_query with hash present / absent / server down at pool creation / changed later / two users each with a hash of its own; a user / a whole pool taken out of the file by a RELOAD before the attempt; the pool moved by a RELOAD to another server that is down at that moment and knows another password) x startup (db,user) pair (configured, other user, unknown user/db, admin db in two spellings, non-admin user on the admin db, user only) x message sent in place of PasswordMessage (18 kinds incl. replayed salt, truncated, oversized, wrong type) followed at once by a tagged query x shutting down or not; verdict compared with the reference admission predicate; the same with a legitimate client logging in and running a statement concurrently (all interleavings with <= 2 deviations: neither connection may change the other's verdict); plus 96 connections opened up to the MD5 challenge: no salt issued twice".into(),
         assumptions: vec!["TLS startup not exercised".into()],
     }
 }
